@@ -84,6 +84,7 @@ raw_start(struct Storage* self_)
     CHECK(file_create(
       &self->file, self->properties.uri.str, self->properties.uri.nbytes));
     LOG("RAW: Frame header size %d bytes", (int)sizeof(struct VideoFrame));
+    self->offset = 0;
     return DeviceState_Running;
 Error:
     return DeviceState_AwaitingConfiguration;
